@@ -38,7 +38,7 @@ type viol struct {
 // rarer observation of the same run.
 var classRank = map[string]int{
 	"panic": 0, "wrong_broadcast": 1, "corrupt_accepted": 2, "duplicate_accepted": 3, "honest_unit_rejected": 4,
-	"broadcast_missing": 5, "later_message": 6, "task_leak": 7, "wedge": 8, "create_failed": 9, "unit_malformed": 9,
+	"broadcast_missing": 5, "swallowed": 5, "later_message": 6, "task_leak": 7, "wedge": 8, "create_failed": 9, "unit_malformed": 9,
 }
 
 type world struct {
@@ -162,6 +162,7 @@ type inc struct {
 	need     string // why a broadcast of the local unit is owed ("" = not owed)
 	got      bool
 	handed   int
+	born     time.Time // fake-clock time at which the subprocessor was started (its context ends born+timeout)
 }
 
 type logRec struct {
@@ -231,6 +232,13 @@ type pw struct {
 	drainStarted        bool
 	lastSpawned         bool
 	gotKey              map[pp.JsimKey]bool
+
+	// messages whose unit was REFUSED for a transient reason (a task bound), in order of the first refusal,
+	// and the keys for which the Processor has ever started a subprocessor (only those can legitimately sit
+	// in the finalized time-cache)
+	refused     []*message
+	refusedWhy  map[pp.JsimKey]string
+	everStarted map[pp.JsimKey]bool
 }
 
 // ---- recording logger (the only window on invalid-unit reports and finalizations) ------------------------
@@ -903,6 +911,24 @@ func (w *pw) checkEvent(e obsEv) {
 
 // ---- one delivery -------------------------------------------------------------------------------------------
 
+// hasRoom: the exported task counters show a free slot for one more message of this publisher.
+func (w *pw) hasRoom(pub peer.ID) bool {
+	tasks, per := pp.JsimTasks(w.p)
+	maxAll, maxPub := pp.JsimBounds(w.p)
+	return tasks < maxAll && per[pub] < maxPub
+}
+
+// noteRefused: a unit was refused because a task bound was hit - a transient reason.
+func (w *pw) noteRefused(key pp.JsimKey, why string, genuine bool) {
+	if !genuine || w.refusedWhy[key] != "" {
+		return
+	}
+	w.refusedWhy[key] = why
+	if m := w.byKey[key]; m != nil && !w.everStarted[key] {
+		w.refused = append(w.refused, m)
+	}
+}
+
 func (w *pw) livePublisher(id peer.ID) int {
 	n := 0
 	for _, in := range w.incs {
@@ -980,6 +1006,7 @@ func (w *pw) deliver(dv *delivery) {
 	_, mpp := pp.JsimBounds(w.p)
 	bound := int(mpp)
 	liveBefore := w.livePublisher(key.Publisher)
+	roomBefore := w.hasRoom(key.Publisher)
 
 	unit := u
 	errText := ""
@@ -1023,6 +1050,17 @@ func (w *pw) deliver(dv *delivery) {
 	case ec == "ok":
 		c.Logf("deliver %s: ignored (key finalized)", dv.note)
 		c.Probe("unit_ignored_key_finalized")
+		// Refusing at a task bound is legal loss. Not legal: the refusal outlives the overload. This unit is a
+		// genuine unit from its proper sender, of a message the Processor has NEVER started a subprocessor
+		// for (so nothing of it was ever processed or finalized), whose earlier unit(s) it refused at a task
+		// bound; the exported task counters showed a free slot before the call - and the unit was swallowed.
+		if why := w.refusedWhy[key]; why != "" && honest && gm.key == key && !w.everStarted[key] && roomBefore {
+			tasks, per := pp.JsimTasks(w.p)
+			maxAll, _ := pp.JsimBounds(w.p)
+			w.reportAt("swallowed", "refused_at_capacity_then_ignored_after_capacity_returned", why,
+				"genuine unit %s (message %s, len=%d d=%d p=%d) from its proper sender: an earlier unit of this message was refused at the task bound (%s); now the counters show room (tasks=%d of %d, this publisher %d of %d), no subprocessor was ever started for the message, yet ProcessMessage returned nil without starting one - the unit is dropped unverified as if the message had been finalized, and so is every further shard of it for StaleMessageTimeout=%v",
+				dv.note, gm.name, len(gm.msg), gm.d, gm.p, why, tasks, maxAll, per[key.Publisher], bound, w.timeout)
+		}
 		return
 	case o.spawned == 1:
 		fresh = true
@@ -1036,6 +1074,7 @@ func (w *pw) deliver(dv *delivery) {
 		switch ec {
 		case "publisher_bound":
 			c.Probe("refused_publisher_bound")
+			w.noteRefused(key, ec, honest && gm.key == key)
 			if liveBefore*2 < bound { // far below the bound: counters leaked (an off-by-one of the bound itself is nobody's property)
 				w.reportAt("task_leak", "refused_below_bound", "publisher", "a new message of a publisher with %d live subprocessors (bound %d) was refused: %s", liveBefore, bound, errText)
 			}
@@ -1044,6 +1083,8 @@ func (w *pw) deliver(dv *delivery) {
 				w.report("honest_unit_rejected", "processor/routing", "genuine unit %s: %s", dv.note, errText)
 			}
 		case "total_bound":
+			c.Probe("refused_total_bound")
+			w.noteRefused(key, ec, honest && gm.key == key)
 		default:
 			if honest {
 				w.report("honest_unit_rejected", "processor/other", "genuine unit %s: %s", dv.note, errText)
@@ -1056,7 +1097,8 @@ func (w *pw) deliver(dv *delivery) {
 		if com == nil {
 			com = w.comBy[u.CommitteeID]
 		}
-		in = &inc{id: w.nextID, key: key, m: m}
+		in = &inc{id: w.nextID, key: key, m: m, born: time.Now()}
+		w.everStarted[key] = true
 		if m != nil {
 			in.total, in.d = m.d+m.p, m.d
 		} else if com != nil {
@@ -1491,8 +1533,10 @@ func (w *pw) laterMessage() {
 	w.quiesced("after_later_message")
 }
 
-// runFlood: many concurrent messages of ONE publisher; the per-publisher bound may refuse messages only
-// while that many subprocessors are alive, and after StaleMessageTimeout the full bound is available again.
+// runFlood: many concurrent messages - of ONE publisher (the per-publisher bound) or, class 'global', spread
+// over all publishers of the committee (the bound on all tasks). A bound may refuse messages only while that
+// many subprocessors are alive; once slots are free again a message refused before must be taken like any
+// other; after StaleMessageTimeout the full bound is available again.
 func (w *pw) runFlood() {
 	c, t := w.c, w.c.T
 	n := 7 + t.Draw("flood_committee", 4)
@@ -1513,7 +1557,7 @@ func (w *pw) runFlood() {
 	if len(w.viols) > 0 || !w.started {
 		return
 	}
-	_, mpp := pp.JsimBounds(w.p)
+	maxAll, mpp := pp.JsimBounds(w.p)
 	bound := int(mpp)
 	if bound < 1 || bound > 4096 {
 		c.Inconclusive++
@@ -1524,33 +1568,50 @@ func (w *pw) runFlood() {
 	if t.Draw("flood_class", 3) != 0 {
 		k = bound - 2 + t.Draw("flood_near_bound", 6)
 	}
-	c.Logf("flood: %d messages of publisher %d, bound %d", k, pubPos, bound)
-	other := 0
-	for other == first.localIdx {
-		other++
+	// class 'global': every other member publishes, round robin, until the bound on ALL tasks is hit
+	pubs := []int{pubPos}
+	step := time.Millisecond
+	if t.Draw("flood_scope", 4) == 3 && maxAll >= 1 && maxAll <= 4096 && uint64(n-1)*(mpp-1) >= maxAll+3 {
+		pubs = pubs[:0]
+		for q := 0; q < n; q++ {
+			if pos := (pubPos + q) % n; pos != com.localPos {
+				pubs = append(pubs, pos)
+			}
+		}
+		k = int(maxAll) - 2 + t.Draw("flood_near_total_bound", 6)
+		step = 200 * time.Microsecond // all of them in flight at once, whatever StaleMessageTimeout is
+		c.Probe("flood_all_publishers")
 	}
-	one := func(name string, nonce int, second bool) bool {
-		m := w.publish(name, com, pubPos, pp.Nonce(nonce), []byte(name))
+	c.Logf("flood: %d messages of %d publisher(s) from %d on, bound per publisher %d, on all tasks %d", k, len(pubs), pubPos, bound, maxAll)
+	one := func(name string, pos, nonce int, second bool) bool {
+		m := w.publish(name, com, pos, pp.Nonce(nonce), []byte(name))
 		if m == nil {
 			return false
 		}
+		other := 0
+		if m.localIdx == 0 {
+			other = 1
+		}
 		dv := delivery{unit: cloneUnit(&m.units[other]), sender: m.senders[other], note: name + "." + fmt.Sprint(other), src: m}
 		w.deliver(&dv)
-		w.advance(time.Millisecond)
+		w.advance(step)
 		if second && len(w.viols) == 0 {
 			dv2 := delivery{unit: cloneUnit(&m.units[other]), sender: m.senders[other], note: name + "." + fmt.Sprint(other) + "'", src: m}
 			w.deliver(&dv2)
-			w.advance(time.Millisecond)
+			w.advance(step)
 		}
 		return len(w.viols) == 0
 	}
 	for j := 0; j < k; j++ {
-		if !one(fmt.Sprintf("f%d", j), 1000+j, t.Chance("flood_second", 1, 2)) {
+		if !one(fmt.Sprintf("f%d", j), pubs[j%len(pubs)], 1000+j, t.Chance("flood_second", 1, 2)) {
 			return
 		}
 	}
-	if k > bound {
+	if len(pubs) == 1 && k > bound || len(pubs) > 1 && k > int(maxAll) {
 		c.Probe("flood_beyond_bound")
+	}
+	if !w.retryRefused(step) {
+		return
 	}
 	w.advance(w.timeout + time.Second)
 	if !w.quiesced("after_flood") || len(w.viols) > 0 {
@@ -1558,7 +1619,7 @@ func (w *pw) runFlood() {
 	}
 	// the whole bound is available again
 	for j := 0; j < bound; j++ {
-		if !one(fmt.Sprintf("g%d", j), 100000+j, false) {
+		if !one(fmt.Sprintf("g%d", j), pubPos, 100000+j, false) {
 			return
 		}
 		if !w.lastSpawned {
@@ -1571,11 +1632,135 @@ func (w *pw) runFlood() {
 	w.quiesced("after_refill")
 }
 
+// retryRefused: the overload ends - slots are given back by subprocessors that finish, that end on a forged
+// first unit, or that run into StaleMessageTimeout - and units of messages REFUSED at a bound arrive (again).
+// Nothing of such a message was ever processed, its key is not legitimately finalized: the Processor has to
+// start a subprocessor for it and, once the local shard or build-threshold many valid units are handed
+// over, owes the same broadcast as for any other message (deliver() keeps the model, the oracles are the
+// usual ones plus 'swallowed'). Returns false when the run has noted a violation.
+func (w *pw) retryRefused(step time.Duration) bool {
+	c, t := w.c, w.c.T
+	if len(w.refused) == 0 {
+		return true
+	}
+	want := 1 + t.Draw("retry_slots", 3)
+	way := t.Draw("capacity_returns_by", 3)
+	live := append([]*inc(nil), w.incs...) // oldest first
+	c.Logf("retry: %d message(s) were refused at a bound; capacity returns by %s, %d slot(s)", len(w.refused), []string{"timeout", "completion", "forged_first_unit"}[way], want)
+	switch way {
+	case 1: // the oldest messages in flight are completed: every unit from its proper sender, in order
+		for q := 0; q < want && q < len(live); q++ {
+			m := live[q].m
+			if m == nil {
+				continue
+			}
+			for i := range m.units {
+				dv := delivery{unit: cloneUnit(&m.units[i]), sender: m.senders[i], note: fmt.Sprintf("%s.%d+", m.name, i), src: m}
+				w.deliver(&dv)
+				if len(w.viols) > 0 {
+					return false
+				}
+				w.advance(step)
+			}
+		}
+	case 2: // a forged unit is the first one validated by a subprocessor that has validated none: it ends
+		done := 0
+		for _, in := range live {
+			if done == want {
+				break
+			}
+			if in.m == nil || in.handed != 0 {
+				continue
+			}
+			bad := w.corrupt("corrupt_shard", in.m, in.m.localIdx, nil)
+			bad.src = in.m
+			w.deliver(&bad)
+			if len(w.viols) > 0 {
+				return false
+			}
+			w.advance(step)
+			done++
+		}
+	}
+	// whatever was tried: while the counters show no free slot, the clock passes the deadline of the oldest
+	// subprocessors (a refusal remembered by mistake would still be remembered: it is younger than they are)
+	r0 := w.refused[0]
+	if !w.hasRoom(r0.pub.id) && len(w.incs) > 0 {
+		idx := want - 1
+		if idx >= len(w.incs) {
+			idx = len(w.incs) - 1
+		}
+		if d := time.Until(w.incs[idx].born.Add(w.timeout).Add(step / 4)); d > 0 {
+			c.Logf("retry: the clock passes the deadline of the %d oldest subprocessor(s)", idx+1)
+			w.advance(d)
+		}
+	}
+	if len(w.viols) > 0 {
+		return false
+	}
+	from := t.Draw("retry_from", len(w.refused))
+	for q := 0; q < want && q < len(w.refused); q++ {
+		r := w.refused[(from+q)%len(w.refused)]
+		if w.everStarted[r.key] || pp.JsimHasSubprocessor(w.p, r.key) {
+			continue
+		}
+		if !w.hasRoom(r.pub.id) {
+			// e.g. no goroutine executes Processor.Run: nothing is ever given back (judged at quiescence)
+			tasks, per := pp.JsimTasks(w.p)
+			c.Logf("retry: no free slot for %s (tasks=%d, publisher=%d)", r.name, tasks, per[r.pub.id])
+			c.Probe("capacity_not_back_before_retry")
+			break
+		}
+		c.Probe("capacity_back_after_refusal")
+		total := r.d + r.p
+		other := 0
+		if r.localIdx == 0 {
+			other = 1
+		}
+		var order []int
+		seq := t.Draw("retry_sequence", 3)
+		if seq == 2 && total-1 < r.d {
+			seq = 0
+		}
+		switch seq {
+		case 0: // any unit starts the subprocessor (and is dropped there), then the local shard
+			order = []int{other, r.localIdx}
+		case 1: // the local shard, twice
+			order = []int{r.localIdx, r.localIdx}
+		case 2: // build-threshold many units, the local shard not among them
+			order = []int{other}
+			skip0 := t.Draw("retry_without_shard0", 2) == 1 && total-2 >= r.d
+			for i := 0; i < total && len(order) < 1+r.d; i++ {
+				if i == r.localIdx || skip0 && i == 0 {
+					continue
+				}
+				order = append(order, i)
+			}
+		}
+		for pos, i := range order {
+			dv := delivery{unit: cloneUnit(&r.units[i]), sender: r.senders[i], note: fmt.Sprintf("%s.%d again", r.name, i), src: r}
+			w.deliver(&dv)
+			if len(w.viols) > 0 {
+				return false
+			}
+			if pos == 0 && w.lastSpawned {
+				c.Probe("refused_message_started_after_capacity_back")
+			}
+			w.advance(step)
+		}
+		if w.gotKey[r.key] {
+			c.Probe("refused_message_broadcast_after_capacity_back")
+		}
+	}
+	return len(w.viols) == 0
+}
+
 // C19 is one simulated run.
 func C19(c *sim.Ctx) {
 	keyPool()
 	t := c.T
-	w := &pw{world: &world{c: c}, comBy: map[pp.CommitteeID]*committee{}, byKey: map[pp.JsimKey]*message{}, gotKey: map[pp.JsimKey]bool{}}
+	w := &pw{world: &world{c: c}, comBy: map[pp.CommitteeID]*committee{}, byKey: map[pp.JsimKey]*message{}, gotKey: map[pp.JsimKey]bool{},
+		refusedWhy: map[pp.JsimKey]string{}, everStarted: map[pp.JsimKey]bool{}}
 	w.fid.engine = t.Draw("world", 8) == 7
 	w.fid.loggerSet = t.Draw("logger", 6) != 5
 	w.fid.eventSink = t.Draw("events", 4) != 3
